@@ -177,6 +177,8 @@ impl RouteIntervals {
             .cloned();
 
         solution_ctx.ignored.retain(|job| !candidate_jobs.contains(job));
+        // NOTE some of these jobs are already in required
+        solution_ctx.required.retain(|job| !candidate_jobs.contains(job));
         solution_ctx.locked.extend(candidate_jobs.iter().cloned().chain(assigned_job));
         solution_ctx.required.extend(candidate_jobs);
     }
